@@ -14,6 +14,13 @@ from ..sem import term, unwrap
 CLS = 'nix::FormatVersion'
 
 
+class CrossIndex(Exception):
+    """a component of one version is compared with a different component of the other"""
+    def __init__(self, node):
+        Exception.__init__(self, node.src(40))
+        self.node = node
+
+
 class MagnitudeDependent(Exception):
     """the comparison is not a function of the component order alone"""
 
@@ -98,7 +105,7 @@ class VerInterp(Interp):
             if not (lc and rc):
                 raise Unsupported('version component compared with a non-component at %s (%s): the sign domain is not exhaustive' % (n.loc(), n.src()))
             if l[2] != r[2]:
-                raise Unsupported('components of different index compared at %s (%s)' % (n.loc(), n.src()))
+                raise CrossIndex(n)
             if op not in ('<', '<=', '>', '>=', '==', '!='):
                 raise Unsupported('arithmetic on a version component at %s (%s): the sign domain is not exhaustive' % (n.loc(), n.src()))
             if l[1] == r[1]:
@@ -182,6 +189,12 @@ def run(prog, rep):
                          'difference is 0 although the components differ, so the result depends on magnitudes and cannot equal the '
                          'component-wise specification (%s) for all versions with sign(A-B) = %s' % (name, md.node.src(60), d, want, signs))
                 continue
+            except CrossIndex as ci:
+                n_eval += 1
+                rule.bad('%s::%s|signs=%s' % (CLS, name, ','.join('%+d' % s for s in signs)), rep.where(ci.node), fn.q,
+                         '%s(A,B) compares different components with each other (%s): no lexicographic / component-wise specification does that, e.g. the '
+                         'patch component of A is tested against the minor component of B' % (name, ci.node.src(40)))
+                continue
             if len(res) != 1:
                 raise AnalysisBroken('%s is not a function of the sign vector alone' % fn.q)
             out = res[0][1]
@@ -202,6 +215,8 @@ def run(prog, rep):
                 vals.append(out[1] if out[0] == 'ret' else None)
             except MagnitudeDependent:
                 vals.append('magnitude-dependent')
+            except CrossIndex:
+                vals.append('cross-index')
         tri.check(vals.count(True) == 1 and vals.count(False) == 2, 'trichotomy|signs=%s' % ','.join('%+d' % s for s in signs),
                   rep.where(fns['operator<']), CLS, '(<,==,>) = %s' % (vals,), '(<,==,>) = %s is not exactly-one-true' % (vals,))
     rep.extra['abstract_evaluations'] = n_eval + 81
